@@ -68,6 +68,7 @@ struct CamScript
     int fail_at = -1;      // get_frame returns Device_Err at this call index of the run
     bool fail_start = false;
     bool stop_yields = false;
+    int vary = 0;          // >0: frame k is up to `vary` pixels narrower than configured (a pure function of k): frame sizes mix
 };
 
 struct StoreScript
@@ -127,7 +128,8 @@ struct Instance
     std::vector<Event> events;
     // camera
     CameraProperties props;
-    ImageShape shape;
+    ImageShape shape;      // shape of the next frame (what get_image_shape reports)
+    uint32_t base_w = 1, base_h = 1;
     uint64_t k = 0, calls = 0, hw = 0;
     bool stop_requested = false;
     int triggers = 0;
